@@ -441,6 +441,12 @@ func (ex *Exec) globalVal(st *State, g *ssa.Global) Val {
 	}
 	t := g.Type().Underlying().(*types.Pointer).Elem()
 	name := fmt.Sprintf("G%d_%s_%s", st.epoch, g.Pkg.Pkg.Name(), g.Name())
+	if kindOf(t) == KScalar && ex.ld.neverWritten(g) {
+		// a scalar package variable that no function of the module stores to or
+		// takes the address of (only its initialiser sets it) has one value
+		// for the whole execution
+		name = fmt.Sprintf("GK_%s_%s", g.Pkg.Pkg.Name(), g.Name())
+	}
 	// a package variable pinned by a globalinit clause (initialiser fixed, no
 	// writer anywhere in the module: proved by that clause) is a constant with
 	// the listed content
